@@ -621,6 +621,14 @@ func driver(args []string) int {
 		}
 	}
 
+	if exit == 1 && m.InconCount > 0 {
+		fmt.Printf("note: %d inconclusive cases, e.g.:\n", m.InconCount)
+		for i, s := range m.Inconclusive {
+			if i < 4 {
+				fmt.Println("  ", oneLine(s, 400))
+			}
+		}
+	}
 	// samples: first 3 + 3 spread
 	samples := m.Samples
 	if len(samples) > 6 {
